@@ -15,7 +15,7 @@ func termRules() []*Rule {
 		{ID: "TERM-1", Props: []string{"C05", "C16"}, Min: 4,
 			Doc: "every cycle of the module call graph reachable from the API passes through a call that hands on a recursion budget decremented by ≥ 1 to a function that returns when the budget is exhausted before doing anything else, or recurses on a strictly shorter slice of its argument",
 			Run: runTerm1},
-		{ID: "TERM-2", Props: []string{"C05", "C16"}, Min: 40,
+		{ID: "TERM-2", Props: []string{"C05", "C16"}, Min: 50,
 			Doc: "every loop in an API-reachable function is a range loop, a progress loop (an index that grows by ≥ 1 on every iteration against an invariant bound), a shrink loop, or a growth loop with a bounded target",
 			Run: runTerm2},
 		{ID: "CONTRACT", Props: []string{"C05", "C16", "C18"}, Min: 10,
